@@ -80,8 +80,12 @@ def enumerate_cases(tier):
             d2 |= neighbours(w, alpha)
         words = sorted(d2)
         d3 = sorted({w2 for w in words[::97] for w2 in neighbours(w, alpha)} - d2)[:200]
-        for i, w in enumerate(words + d3):
-            if i % step and w != key:
+        # names that are far from the key although they share long prefixes and suffixes with it (repeats, overlaps, affixes)
+        far = [key + key, key + "_" + key, key + " " + key, key + "X" + key, key * 3, key[:4] + key, key + key[-4:], key[:5] + key[3:], key[::-1],
+               "my" + key + "data", key + "_old_" + key, key[:3] + key[:3] + key[3:], key + key[:2], key[-2:] + key, key[0] * 4 + key[1:], key[:-1] + key[-1] * 4,
+               key[: len(key) // 2] * 2, key[len(key) // 2:] * 2, key[:2] + key[-2:], key + "s" * 3, "s" * 3 + key]
+        for i, w in enumerate(words + d3 + far):
+            if i % step and w != key and w not in far:
                 continue
             for present in (False, True):
                 form = {"nodes": [{"k": "q", "c": {"type": "text", "name": "q", "label": "Q"}}], "args": {}, "extra_sheets": [w] if w != key else []}
@@ -141,6 +145,13 @@ def _cases(draw):
         form.setdefault("settings", {})["allow_choice_duplicates"] = "yes"
     if g.p("_", 0.3):
         form["extra_sheets"] = [g.pick(["setting", "settingss", "_settings", "Settings2", "entity", "entitie", "_entities", "notes", "sett", "choicez", "osmm"])]
+        if g.p("_", 0.3):
+            # composed names: pieces of a supported name glued together -- close in letters, far (or not) in edit distance
+            key = g.pick(["settings", "entities", "choices", "survey", "osm", "external_choices"])
+            a, b = g.integer(0, len(key)), g.integer(0, len(key))
+            form["extra_sheets"] = [(key[:a] + g.pick(["", "", "_", " ", "x"]) + key[b:]) or "x"]
+            if form["extra_sheets"][0].lower().strip() in ("survey", "choices", "settings", "entities", "osm", "external_choices"):
+                form["extra_sheets"] = [key + key]
     if g.p("_", 0.1) and "form_id" in form.get("settings", {}) and "id_string" not in form["settings"]:
         # both id columns, only the id_string cell filled in: the headers are the trigger
         st_ = form["settings"]
@@ -163,7 +174,7 @@ def _cases(draw):
             form["extra_sheets"] = [g.pick(["settings2", "setting", "notes"])]
     if g.p("_", 0.12):
         gen.respell_language(g, form)
-    return {"form": form, "meta": {"kind": "random"}}
+    return {"form": form, "meta": {"kind": "random"}, "legacy_types": g.p("_", 0.2)}
 
 
 def strategy(tier):
@@ -175,14 +186,18 @@ def evaluate(case) -> Outcome:
     form = case["form"]
     kind = case.get("meta", {}).get("kind", "random")
     out.label("case:" + kind)
-    status, res = common.run_form(form)
+    # a share of the forms is converted in the legacy spelling of its type cells; the expectations below come from the canonical one
+    as_written = common.legacy_types(form) if case.get("legacy_types") else form
+    if as_written is not form:
+        out.label("legacy-type-spelling")
+    status, res = common.run_form(as_written)
     if form.get("settings_rows_extra"):
         # only the first settings row with content is used: rows below it change neither the verdict nor the form, whatever
         # warnings the first row earns (advisory only)
         out.checked("C20.advisory-only")
         twin = model.clone(form)
         del twin["settings_rows_extra"]
-        s2, r2 = common.run_form(twin)
+        s2, r2 = common.run_form(common.legacy_types(twin) if case.get("legacy_types") else twin)
         if s2 != status:
             out.fail("C20.advisory-only", f"{s2}->{status}", f"without the extra settings row: {s2}; with it: {status}: {res if status != 'ok' else r2}")
         elif status == "ok" and (r2.xform != res.xform or list(r2.warnings) != list(res.warnings)):
